@@ -83,6 +83,10 @@ mod verif_c19 {
     rep!(c19_rep_curdir_then_parent, "x:/./../p");
     rep!(c19_rep_curdir_empty_parent, "x:/.//../p");
     rep!(c19_rep_balanced_then_parent, "x:/a/./../../p");
+    // percent-encoded dots and slashes: whatever the loader does with them, the path opened stays inside
+    rep!(c19_rep_pct_dotdot, "x:/%2e%2e/p");
+    rep!(c19_rep_pct_mixed_dotdot, "x:/.%2E/p");
+    rep!(c19_rep_pct_slash, "x:/..%2fp");
 
     /// symbolic suffix (bounded): 4 bytes over {a, ., /} after the namespace
     //@STUBS
